@@ -212,6 +212,9 @@ func hostileTxSample(fx *fixture, r *rand.Rand, k int) []*types.Transaction {
 func (G *gen) txCase(fx *fixture, d txDesc, entry string, mode int) {
 	raw := mustBytes(d.tx.ToBytes())
 	cs := c12case{Section: "tx", State: fx.kind, Seed: G.seed, Hex: hex.EncodeToString(raw), Entry: entry, Mode: mode, Neg: d.neg}
+	if strings.HasPrefix(d.key, "long-answers-vrf") {
+		cs.Note = d.key
+	}
 	r := G.exec(fx, cs, len(raw), "", allocBound(len(raw)), nil)
 	cls := r.Class
 	if r.Panic != "" {
